@@ -158,6 +158,7 @@ func runC17(r *mon.Run) {
 	r.FloorAccept("complete", 2)
 	r.FloorFam("binding", 5)
 	r.FloorFam("leaf-alter", 20)
+	r.FloorFam("aspp-simulated", 1)
 	r.FloorFam("component-cheat", 30)
 	r.FloorFam("component-position-alter", 500)
 	r.Floor("forbidden moduli for which all four sub-proofs verify (only the mod-8 condition rejects)", 1, func() int64 { return r.Get("bad_modulus_with_all_subproofs_valid") })
@@ -365,6 +366,44 @@ func c17Key(r *mon.Run, rng *rand.Rand, bits, nb, nLeaves, keyNo int) {
 		}
 		if t < 3 {
 			r.Sample(map[string]any{"altered_leaf": l.path, "kind": kind, "operator": op, "key": desc})
+		}
+	}
+	// the almost-safe-prime-product part simulated after the fact: for the proof's own challenge every round's commitment is
+	// recomputed from a freely chosen response (C_i = base_i^(r_i^2 - x_i)), which satisfies the round's equation without any
+	// secret. The commitments are part of what the challenge was computed over, so the proof must no longer verify.
+	{
+		sim := rt // struct copy; the slices below are replaced, not written through
+		ap := sim.QSPPproof.ASPPproof
+		k := len(ap.Commitments)
+		if k > 0 && len(ap.Responses) == k && ap.Nonce != nil {
+			cs, rs := make([]*big.Int, k), make([]*big.Int, k)
+			okSim := true
+			for i := 0; i < k; i++ {
+				base := new(big.Int).Mod(refimpl.GetHashNumber(ap.Nonce, nil, i, uint(n.BitLen())), n)
+				xi := refimpl.GetHashNumber(sim.Challenge, bi(3), i, uint(2*n.BitLen()))
+				ri := randBig(rng, n.BitLen()-2)
+				c := refimpl.PowSigned(base, sub(mul(ri, ri), xi), n)
+				if c == nil {
+					okSim = false
+					break
+				}
+				cs[i], rs[i] = c, ri
+			}
+			if okSim {
+				sim.QSPPproof.ASPPproof.Commitments, sim.QSPPproof.ASPPproof.Responses = cs, rs
+				inflight("almost-safe-prime-product part simulated, " + desc)
+				ok, p := verify(s, sim)
+				inflight("")
+				out := outcome(ok, nil)
+				if p {
+					out = "panic"
+				}
+				r.Eval("aspp-simulated", out)
+				r.Distinct("aspp-simulated", desc)
+				if ok {
+					r.Violation("C17/simulated-component-accepted/almost-safe-prime-product", "key proof still verifies after its almost-safe-prime-product commitments and responses were replaced by a transcript simulated for the proof's own challenge ("+desc+")", keyRep)
+				}
+			}
 		}
 	}
 	// every kind of component removed (nil) at its first, last and a random position: the verifier has to refuse the
